@@ -9,6 +9,7 @@ decoy settings and then brought to the configuration under test through those up
 in which container form - unsorted list / tuple / array, with duplicates -, optionally after a first call and after a
 first decoy update).  impose_as additionally gets masks in every shape a collapse detector can emit (pairs i<j sharing
 the first / the second member, chains, several groups, cliques, tolerance graphs; as list or as set)."""
+import copy
 import math
 import random
 from .common import *       # noqa
@@ -162,11 +163,33 @@ UPD = {'discrete': {'samples': 'samples', 'index': 'index'}, 'integers': {'ints'
 INTS = {'True': True, 'False': False, 'float': float, 'int': int}
 
 
+GRID = [k / 4.0 for k in range(-24, 49)]           # -6 .. 12 in quarter steps
+
+
+def gen_samples(rng, other=None):
+    """a sample set as a caller may hand it over: 1-8 members in arbitrary order (sometimes ascending / descending,
+    sometimes with a repeated member); with `other` given, usually of a different length than that set"""
+    k = rng.randint(1, 8)
+    if other is not None and k == len(other) and rng.random() < 0.8:
+        k = k % 8 + 1
+    s = rng.sample(rng.choice([SAMPLES, GRID, GRID]), k)
+    order = rng.random()
+    s = sorted(s) if order < 0.25 else sorted(s, reverse=True) if order < 0.35 else s
+    if rng.random() < 0.2:
+        s.insert(rng.randrange(len(s) + 1), rng.choice(s))
+    return s
+
+
 def gen_via(name, rng, c, n):
-    """configuration c (what the oracle is told) reached through updaters: -> c with 'via' (and more varied samples)"""
+    """configuration c (what the oracle is told) reached through updaters: -> c with 'via' (which settings, in which
+    container form, whether a second decoy is installed through the updater first), 'decoys' (per setting: the value the
+    decorator is built with, the value of the intermediate update), 'precall' (a call between construction and
+    update), 'cform' (container handed to the decorator itself) and, for sorting/monotonic, 'hook' (the result is
+    taken from the exposed func.sorting / func.monotonic helper)"""
     c = dict(c)
-    if name == 'discrete':       # any order, repeated members allowed
-        c['samples'] = [rng.choice(SAMPLES) for _ in range(rng.randint(1, 6))]
+    if name == 'discrete':       # any order, any length, repeated members allowed
+        c['samples'] = gen_samples(rng)
+        c['cform'] = rng.choice(['list', 'tuple', 'array'])
     if name == 'impose_bounds' and isinstance(c['bounds'], dict):
         c['index'] = None
     fields = sorted(UPD[name])
@@ -175,19 +198,29 @@ def gen_via(name, rng, c, n):
     chosen = [f for f in fields if rng.random() < 0.7] or [rng.choice(fields)]
     if name == 'discrete' and 'samples' not in chosen and rng.random() < 0.7:
         chosen.append('samples')
+    if name == 'discrete' and rng.random() < 0.1:
+        chosen = []                                   # only the container handed to the decorator varies
     rng.shuffle(chosen)
-    via = []
+    via, decoys = [], {}
     for f in chosen:
         form = rng.choice(['list', 'tuple', 'array', 'list']) if f in ('samples', 'index') else 'value'
         if f == 'index' and isinstance(c['index'], int):
             c['index'] = [c['index']]
         via.append([f, form, rng.random() < 0.3])      # [field, container, also install a decoy through the updater first]
-    c['via'] = via
+        if f == 'samples':
+            decoys[f] = [gen_samples(rng, c['samples']), gen_samples(rng, c['samples'])]
+        elif f == 'index':
+            decoys[f] = [decoy(name, f, c, n), rng.choice([None, [0], list(range(n))[::2] or [0], [-1]])]
+    c['via'], c['decoys'] = via, decoys
     c['precall'] = rng.random() < 0.4
+    if name in ('sorting', 'monotonic'):
+        c['hook'] = rng.random() < 0.3
     return c
 
 
-def decoy(name, f, c, n):
+def decoy(name, f, c, n, k=0):
+    if f in c.get('decoys', {}):
+        return c['decoys'][f][k]
     if f == 'samples':
         return [100.0, -50.0, 25.0]
     if f == 'index':
@@ -205,20 +238,28 @@ def contain(form, v):
     return np.array(v) if form == 'array' else tuple(v) if form == 'tuple' else list(v)
 
 
+def same(a, b):
+    if type(a) is not type(b):
+        return False
+    return (a.dtype == b.dtype and np.array_equal(a, b)) if isinstance(a, np.ndarray) else a == b
+
+
 NAMES = ['impose_bounds', 'bounded', 'discrete', 'integers', 'rounded', 'precision', 'impose_unique', 'unique',
          'sorting', 'monotonic', 'impose_at', 'impose_as', 'with_mean', 'with_variance', 'with_std', 'with_spread',
          'normalized', 'masked', 'partial', 'synchronized', 'clipped', 'suppressed']
 
 
 def build(name, c, x=None):
-    """the transform in configuration c; with c['via'] it is decorated with decoys and updated to c afterwards"""
+    """-> (the transform in configuration c, held); with c['via'] it is decorated with decoys and updated to c
+    afterwards.  held = [(what, the object handed to mystic, an untouched copy of it)] for the `argument` clause"""
+    held = []
     via = c.get('via')
     if not via:
-        return build_plain(name, c)
+        return build_plain(name, c, held), held
     c0 = dict(c)
     for f, _, _ in via:
         c0[f] = decoy(name, f, c, 0)
-    t = build_plain(name, c0)
+    t = build_plain(name, c0, held)
     if c.get('precall') and x is not None:
         try:
             t(x)                                        # a call in the decoy configuration, result not looked at
@@ -228,12 +269,19 @@ def build(name, c, x=None):
         upd = getattr(t, UPD[name][f])
         val = lambda v: INTS[v] if f == 'ints' else contain(form, v)      # noqa: E731
         if twice:
-            upd(val(decoy(name, f, c, 0)))
-        upd(val(c[f]))
-    return t
+            upd(val(decoy(name, f, c, 0, 1)))
+            if c.get('precall') and x is not None and f == 'samples':
+                try:
+                    t(copy.deepcopy(x))
+                except Exception:      # noqa
+                    pass
+        arg = val(c[f])
+        held.append(('%s-%s' % (f, form), arg, copy.deepcopy(arg)))
+        upd(arg)
+    return t, held
 
 
-def build_plain(name, c):
+def build_plain(name, c, held=None):
     import mystic.constraints as mc
     import mystic.tools as mt
     idx = tup(c.get('index'))
@@ -245,7 +293,10 @@ def build_plain(name, c):
             return lambda x: mc.bounded(x, b, idx, c['clip'], c['nearest'])
         return mc.impose_bounds(b, idx, c['clip'], c['nearest'])(I)
     if name == 'discrete':
-        return mc.discrete(list(c['samples']), idx)(I)
+        arg = contain(c.get('cform', 'list'), c['samples'])
+        if held is not None:
+            held.append(('ctor-samples-%s' % c.get('cform', 'list'), arg, copy.deepcopy(arg)))
+        return mc.discrete(arg, idx)(I)
     if name == 'integers':
         return mc.integers(INTS[c['ints']], idx)(I)
     if name in ('rounded', 'precision'):
@@ -463,7 +514,11 @@ def check_case(case):
                                     (name == 'normalized' and abs(math.fsum(xs)) <= 1e-9 * math.fsum(map(abs, xs))) or
                                     (name != 'normalized' and name != 'with_mean' and max(xs) == min(xs)))
     seed_all(case['seed'])
-    t = build(name, c)
+    t, held = build(name, c, mk(kind, xs))
+    if c.get('hook'):           # the helper the decorator exposes (func.sorting / func.monotonic), used on its own
+        t = (lambda h: lambda x: h(x, ascending=c['ascending']))(getattr(t, name))
+    unheld = lambda: [(P + name + '/argument#' + w, 'the %r handed over as %s is now %r' % (a0, w, a))    # noqa: E731
+                      for w, a, a0 in held if not same(a, a0)]
     try:
         y = plain(t(mk(kind, xs)))
     except Exception as e:      # noqa
@@ -471,7 +526,7 @@ def check_case(case):
             (name == 'masked' and isinstance(e, KeyError))
         if ok_abort:
             return [], False, '%s: %s' % (name, type(e).__name__)
-        return [(key('raises'), '%s: %s' % (type(e).__name__, e))], True, None
+        return [(key('raises'), '%s: %s' % (type(e).__name__, e))] + unheld(), True, None
     if degenerate:
         return [], False, None
     x0 = plain(mk(kind, xs))
@@ -486,7 +541,7 @@ def check_case(case):
                 out += [(key(cl, 'reuse'), d) for cl, d in oracle(name, c, list(x0), list(y3), n)]
         except Exception as e:      # noqa
             out.append((key('idempotent'), 'second application raised %s: %s' % (type(e).__name__, e)))
-    return out, n > 0 and list(y) != list(xs), None
+    return out + unheld(), n > 0 and list(y) != list(xs), None
 
 
 # impose_as sub-cases that random generation reaches only now and then (kept so that the key set is seed-independent)
@@ -508,6 +563,15 @@ def gen_cases(seed, per):
             else:
                 xs = gen_vec(rng, kind, n)
             cases.append(dict(t=name, cfg=gen_cfg(name, rng, n, kind), kind=kind, x=xs, seed=rng.randrange(10 ** 6)))
+    for name in sorted(UPD):            # the same transforms, configured through their updater methods
+        for k in range(per):
+            kind = KINDS[k % len(KINDS)]
+            n = [0, 1, 2, 3, 4, 5, 6, 7, 8, 3, 4, 5][rng.randrange(12)] if k >= 9 else k
+            xs = gen_vec(rng, kind, n)
+            c = gen_via(name, rng, gen_cfg(name, rng, n, kind), n)
+            if name == 'discrete' and kind != 'intlist':        # some entries that conform already
+                xs = [rng.choice(c['samples']) if rng.random() < 0.25 else v for v in xs]
+            cases.append(dict(t=name, cfg=c, kind=kind, x=xs, seed=rng.randrange(10 ** 6)))
     return cases
 
 
@@ -519,7 +583,7 @@ def work(chunk):
         c = case['cfg']
         ik = 'none' if c.get('index', 0) is None else 'idx'
         res.case('%s|%s|n=%d|%s|%s' % (case['t'], case['kind'], len(case['x']), ik,
-                                       sorted((k, str(v)) for k, v in c.items() if k not in ('index', 'mask'))),
+                                       sorted((k, str(v)) for k, v in c.items() if k not in ('index', 'mask', 'decoys'))),
                  nontrivial, jsonable(case) if nontrivial else None)
         if ab:
             aborted[ab] = aborted.get(ab, 0) + 1
